@@ -896,6 +896,15 @@ def nat_wrappers(rng):
             orb = np.asarray(fn(scf)[0][0])
             n = np.asarray(at.occ.f)[0, 0, 0] * np.sum(np.abs(orb) ** 2, axis=1)
             e = max(e, float(np.abs(n - n_ref).max() / np.abs(n_ref).max()), float(np.abs(at.dV * orb.conj().T @ orb - np.eye(orb.shape[1])).max()))
+    # the FLO workflow with given FODs near the four bonds (away from the degenerate configurations of the open finding on get_FLO): orthonormal, same density
+    from eminus.orbitals import FLO
+
+    c = float(np.asarray(at.pos)[0][0])
+    fods = np.array([[c - 0.84, c - 0.84, c + 0.89], [c + 0.89] * 3, [c + 0.73, c - 0.84, c - 0.84], [c - 0.84, c + 0.73, c - 0.84]])
+    n_ref = np.asarray(get_n_total(at, orth(at, scf.W)))
+    orb = np.asarray(FLO(scf, fods=[fods] * at.occ.Nspin)[0][0])
+    n = np.asarray(at.occ.f)[0, 0, 0] * np.sum(np.abs(orb) ** 2, axis=1)
+    e = max(e, float(np.abs(n - n_ref).max() / np.abs(n_ref).max()), float(np.abs(at.dV * orb.conj().T @ orb - np.eye(orb.shape[1])).max()))
     # two spin channels with the SAME number of electrons but DIFFERENT orbitals (spin 0 does not mean identical channels): every channel keeps its own density
     from eminus.dft import get_n_spin
 
@@ -949,6 +958,15 @@ register(Obligation(name="C16.get_FO.non_uniform_fillings", prop=PROP, engine="B
 # ------------------------------------------------------------------------------------------------
 
 
+def hartree_reference(a, n):
+    """Hartree energy of a real-space density by an explicit reciprocal-space sum (independent of get_Ecoul / get_phi): 2 pi Omega / N^2 sum_{G != 0} |n_G|^2 / |G|^2."""
+    nG = np.fft.fftn(np.asarray(n, float).reshape(np.asarray(a.s))).ravel()
+    G2 = np.asarray(a.G2, float)
+    with np.errstate(divide="ignore"):
+        w = np.where(G2 > 0, 1 / G2, 0)
+    return float(2 * np.pi * float(a.Omega) / a.Ns**2 * np.sum(w * np.abs(nG) ** 2))
+
+
 def nat_single_densities_weighted_k(rng):
     """H atom (one electron, unrestricted), Monkhorst-Pack 3x1x1 mesh reduced by time reversal (weights 1/3, 2/3) and a hand-made set with weights
     (0.2, 0.3, 0.5): get_n_single = sum_k wk f |psi_k|^2 (orbitals transformed independently), its sum over the orbitals is the density, and the
@@ -994,7 +1012,7 @@ def nat_single_densities_weighted_k(rng):
             from eminus.gga import get_grad_field
 
             dn = np.asarray(get_grad_field(a, nsp)) if xc == "pbe" else None
-            ref = float(get_Ecoul(a, n)) + float(get_Exc(scf, n, n_spin=nsp, dn_spin=dn, Nspin=2))
+            ref = hartree_reference(a, n) + float(get_Exc(scf, n, n_spin=nsp, dn_spin=dn, Nspin=2))
             worst = max(worst, abs(abs(esic) - abs(ref)) / abs(ref))
     # different numbers of electrons in the two channels with a SYMMETRIC start (guess = 'sym-...'): both channels enter with their own orbitals and fillings
     at = Atoms("Li", [[0.0, 0.0, 0.0]], ecut=4, a=8, unrestricted=True)
@@ -1010,7 +1028,7 @@ def nat_single_densities_weighted_k(rng):
             if wgt > 0:
                 ni = np.zeros((2, a.Ns))
                 ni[0] = ns[sp, :, i] / wgt
-                want += (float(get_Ecoul(a, ni[0])) + float(get_Exc(scf, ni[0], n_spin=ni, Nspin=2))) * wgt
+                want += (hartree_reference(a, ni[0]) + float(get_Exc(scf, ni[0], n_spin=ni, Nspin=2))) * wgt
     worst = max(worst, abs(abs(float(get_Esic(scf, Y))) - abs(want)) / abs(want))
     # the optional n_single argument: the caller's array is not modified and a second evaluation on it gives the same energy (fillings 2: spin-paired)
     at = Atoms("LiH", [[0.0, 0.0, 0.0], [0.0, 0.0, 3.0]], ecut=4, a=8)
